@@ -90,15 +90,37 @@ Theorem C13_own_array_and_cow_map :
 Proof. exact own_array_and_cow_map. Qed.
 Print Assumptions C13_own_array_and_cow_map.
 
+(* a refused operation (not a float dtype, expired get_data, read-only edit, bad index, short or
+   unreadable file) leaves the whole state - caches, their contents, in_memory - as it was *)
+Theorem C13_refused_is_noop : forall st o e, snd (cstep st o) = ORefused e -> fst (cstep st o) = st.
+Proof. exact refused_noop. Qed.
+Print Assumptions C13_refused_is_noop.
+
+(* get_fdata in another dtype while the proxy's file cannot be opened: refused, nothing changes, the
+   cached array is still returned by identity and in_memory is still True *)
+Theorem C13_failed_read_keeps_cache : forall st c dt k d,
+  wf st -> c_fcache st = Some k -> o_dt (get_obj (c_heap st) k) = d -> is_float d = true ->
+  c_dobj st <> DArr k ->
+  (exists p, c_dobj st = DProxy p) -> d <> dt -> is_float dt = true ->
+  cstep st (FdataBroken c dt) = (st, ORefused EUnreadable)
+  /\ snd (cstep st (GetFdata Unchanged d)) = OArr k
+  /\ snd (cstep st InMemory) = OBool true.
+Proof. exact failed_read_keeps_cache. Qed.
+Print Assumptions C13_failed_read_keeps_cache.
+
 (* non-vacuity: a scaled int16 proxy image; fill, edit, unchanged read (cached: edit visible),
    header edits, uncache, read again (file values back), slice, legacy cache *)
 Example C13_nonvacuous :
   let st := init_proxy (mkFile false [1;2;3;4;5;6;7;8]) (mkHdr [2;2;2]%nat I2 352 (Some (2,1))) true false in
   wf st /\
   snd (crun st [GetFdata Fill F8; EditLast; GetFdata Unchanged F8; HdrScl (Some (3,5)); OrigShape [8]%nat;
-                InMemory; Uncache; InMemory; GetFdata Unchanged F8; Slice SLast1; ReadSpec])
+                InMemory; Uncache; InMemory; GetFdata Unchanged F8; Slice SLast1; ReadSpec;
+                Slice (SRev [true; false; true]); FdataBroken Fill F4])
   = [OArr 0; ONone; OArr 0; ONone; ONone; OBool true; ONone; OBool false; OArr 1; OArr 2;
-     OSpec [2;2;2]%nat I2 2 1]
+     OSpec [2;2;2]%nat I2 2 1; OArr 3; ORefused EUnreadable]
+  /\ obj_vals (c_heap (fst (crun st [Slice (SRev [true; false; true])])))
+              (get_obj (c_heap (fst (crun st [Slice (SRev [true; false; true])]))) 0)
+     = [13;11;17;15;5;3;9;7]
   /\ obj_vals (c_heap (fst (crun st [GetFdata Fill F8; EditLast; Uncache; GetFdata Fill F8])))
               (get_obj (c_heap (fst (crun st [GetFdata Fill F8; EditLast; Uncache; GetFdata Fill F8]))) 1)
      = [3;5;7;9;11;13;15;17]
